@@ -122,6 +122,8 @@ class Director:
             k = (st.get("life", 0), st["actor"], st["hook"], st.get("cycle"), st.get("node"), st.get("iter"))
             self.by_key[k].append((i, st))
         self.conv = {}
+        self.cvec = {}
+        self.vector_couplers = {a["name"] for a in self.plan["config"].get("actors", []) if a.get("vectorCoupler")}
         for a in self.plan["config"]["actors"]:
             sc = a.get("conv") or {}
             self.conv[a["name"]] = {tuple(int(x) for x in k.split(",")): v for k, v in sc.items()}
@@ -208,6 +210,11 @@ class Director:
         return ret
 
     def coupling_value(self, actor):
+        if actor.name in self.vector_couplers:
+            # an interface that hands out its own list and keeps updating it in place
+            vec = self.cvec.setdefault(actor.name, [0.0, 1.0])
+            vec[0] = float(self.cval[actor.name])
+            return vec
         return float(self.cval[actor.name])
 
     # -- database acknowledgements (observer of Database.writeToDB returning)
